@@ -186,7 +186,7 @@ esl_min_ConjugateGradientDescent(ESL_MIN_CFG *cfg, double *x, int n,
 	}
  
       /* Bracket the minimum.*/
-      bracket(cfg, x, cg, n, bx, func, prm, w1, &ax, &bx, &cx, &fa, &fb, &fc, dat);
+      if ((status = bracket(cfg, x, cg, n, bx, func, prm, w1, &ax, &bx, &cx, &fa, &fb, &fc, dat)) != eslOK) goto ERROR;
        
       /* Minimize along the line given by the conjugate gradient <cg> */
       brent(cfg, x, cg, n, func, prm, ax, cx, w2, NULL, &fx, dat);
@@ -719,6 +719,7 @@ brent(ESL_MIN_CFG *cfg, double *ori, double *dir, int n,
     {
       m   = 0.5 * (a+b);
       tol = eps*fabs(x) + t;
+      if (! isfinite(m) || ! isfinite(x)) { fx = eslINFINITY; break; } /* NaN/inf interval (non-finite search direction): never converges; tell caller the minimum is not finite */
       if (fabs(x-m) <= 2*tol - 0.5*(b-a)) break; /* convergence test. */
       niter++;
 
